@@ -99,6 +99,82 @@ def absorb_rule(ctx, res, rule):
         res.add(Finding(rule, fshort(mm), "both-passes", "the head must absorb children front to back and the tail back to front; found %s" % calls, loc=T.loc(mm["tree"])))
 
 
+def _union_rule_accumulator(ctx, res, rule, b, loop, rid, acc):
+    """The same merge written with an output list: `for r in ranges.drain(..) { match out.last_mut() { Some(last) if
+    last.end >= r.start => last.end = max(..), _ => out.push(r) } }; *ranges = out`."""
+    P = ctx.lib
+    fn = fshort(b)
+    loc = T.loc(b["tree"])
+    aid = acc["pat"]["id"]
+    it = T.peel(loop["iter"])
+    root = it
+    while root.get("k") == "mcall":
+        if root["name"] not in ("drain", "iter", "into_iter", "cloned", "iter_mut"):
+            res.cannot(rule, fn, "loop", "the merge iterates `%s`, not every range once" % T.render(it)[:60], loc)
+            return
+        root = T.peel_ref(root["recv"])
+    if T.local_of(root) != rid or T.render(acc["init"]) not in ("std::vec::Vec::new()", "std::vec::Vec::with_capacity(ranges.len())") and not T.render(acc["init"]).startswith("std::vec::Vec::with_capacity("):
+        res.cannot(rule, fn, "loop", "expected a loop over all ranges filling an initially empty list", loc)
+        return
+    # the list that was filled replaces the input (or is returned)
+    handed = any(n.get("k") == "assign" and T.local_of(T.peel_ref(n["l"])) == rid and T.local_of(T.peel(n["r"])) == aid for n in T.nodes(b["tree"]))
+    if not handed:
+        res.add(Finding(rule, fn, "merged-handed-back", "the merged list is not assigned back to the input list", loc=loc))
+        return
+
+    def last_model(I_, a, n, env):
+        v = a[0]
+        if isinstance(v, A.VecV) and v.base is None:
+            return A.Variant("Some", [v.items[-1]]) if v.items else A.Variant("None")
+        raise A.Cannot("last() of an unknown list")
+    models = {"core::slice::last_mut": last_model, "core::slice::last": last_model}
+    rows = 0
+    bad = []
+    for a0, b0, a1, b1 in itertools.product(range(K), repeat=4):
+        if not (a0 <= b0 and a1 <= b1):
+            continue
+        rows += 1
+        out = A.VecV([_rng(a0, b0)])
+        I = A.Interp(P, models=models)
+        I.lazy_locals = True
+        try:
+            outs = I.explore(lambda J: J.ev(loop["body"], {aid: out, loop["pat"]["id"]: _rng(a1, b1)}))
+        except A.Cannot as e:
+            res.cannot(rule, fn, "loop-body", str(e), loc)
+            return
+        if len(outs) != 1 or outs[0]["exit"] not in ("fall", "continue"):
+            res.cannot(rule, fn, "loop-body", "the merge step is not a function of the endpoint ordering", loc)
+            return
+        pts0 = set(range(a0, b0)) | set(range(a1, b1))
+        out_pts = set()
+        for r in out.items:
+            s_, e_ = r.fields["start"], r.fields["end"]
+            if not (isinstance(s_, A.Lit) and isinstance(e_, A.Lit)):
+                res.cannot(rule, fn, "loop-body", "range endpoints became symbolic", loc)
+                return
+            out_pts |= set(range(s_.v, e_.v))
+        if not out_pts <= pts0:
+            bad.append(((a0, b0), (a1, b1), [(r.fields["start"].v, r.fields["end"].v) for r in out.items]))
+    # the first range starts the list unchanged
+    first = A.VecV([])
+    I = A.Interp(P, models=models)
+    I.lazy_locals = True
+    try:
+        I.explore(lambda J: J.ev(loop["body"], {aid: first, loop["pat"]["id"]: _rng(1, 3)}))
+    except A.Cannot as e:
+        res.cannot(rule, fn, "loop-body", str(e), loc)
+        return
+    if [(r.fields["start"].v, r.fields["end"].v) for r in first.items if isinstance(r, A.Struct)] != [(1, 3)]:
+        res.add(Finding(rule, fn, "first-range-kept", "the first range does not start the merged list unchanged", loc=loc))
+    res.extra.setdefault("ordering_rows", {})[fn] = rows
+    if bad:
+        x, y, z = bad[0]
+        res.add(Finding(rule, fn, "merged-within-union", "merging %s with %s (endpoint ordering) yields %s, which covers positions in neither range: text between two formatter "
+                        "ranges would be deleted; %d of %d orderings" % (x, y, z, len(bad), rows), loc=loc))
+    else:
+        res.holds(rule, fn, "merged-within-union", "%d endpoint orderings, sorted or not (accumulator form)" % rows)
+
+
 def union_rule(ctx, res, rule):
     """merge_overlapped_ranges: one step of the merge never produces a range that covers a point outside the two
     ranges it combined - whatever their order (the list is not always sorted: nested block ranges arrive out of order)."""
@@ -112,8 +188,13 @@ def union_rule(ctx, res, rule):
         return
     loop = fors[0]
     rid = b["params"][0]["pat"]["id"]
-    wlets = [s for s in T.nodes(b["tree"], "let") if s["pat"]["p"] == "bind" and "Mut" in s["pat"].get("mode", "") and T.lit_value(s["init"]) == 0]
+    wlets = [s for s in T.nodes(b["tree"], "let") if s["pat"]["p"] == "bind" and "Mut" in s["pat"].get("mode", "") and s.get("init") is not None and T.lit_value(s["init"]) == 0]
     if len(wlets) != 1:
+        accs = [s for s in T.nodes(b["tree"], "let") if s["pat"]["p"] == "bind" and "Mut" in s["pat"].get("mode", "") and s.get("init") is not None
+                and "Vec<std::ops::Range<usize>>" in (s.get("pty") or "")]
+        if len(accs) == 1 and not wlets:
+            _union_rule_accumulator(ctx, res, rule, b, loop, rid, accs[0])
+            return
         res.cannot(rule, fn, "write-cursor", "write cursor (`let mut w = 0`) not found", loc)
         return
     wid = wlets[0]["pat"]["id"]
